@@ -389,6 +389,8 @@ _iteration = _pair('c11', 'iteration', (300, 900), 'every source kind; 1..6 (tho
                    validate=D + 'replay_iteration', shards=(5, 5))
 _tiling = _pair('c11', 'tiling', (120, 300), 'n<=40 (thorough 10**6), chunk<=n+20 or None, n//chunk<=6', ['SourceDataWrapper.make_chunked_generator'],
                 replay=D + 'replay_tiling', validate=D + 'replay_tiling')
+_fdcast = _pair('c11', 'fdata_cast', (300, 600), 'every source kind x 8 source dtypes (both byte orders) x 8 cast dtypes given with an explicit byte order (< / >) x scalar/width<=4096: the slot is the cast value, most significant byte first',
+                ['FrameData._make_body_bytes', 'SourceDataWrapper.determine_dtypes', 'SourceDataWrapper.load_chunk'], replay=D + 'replay_fdata_cast', validate=D + 'replay_fdata_cast', shards=(5, 5))
 _fdata = _pair('c11', 'fdata_body', (300, 600), 'every source kind x 8 dtypes x both byte orders x scalar/width<=4096 x frame number<2**30',
                ['FrameData._make_body_bytes'], replay=D + 'replay_fdata_body', validate=D + 'replay_fdata_body', shards=(5, 5)) + [
     dict(fn=H + 'c11.wit_fdata_bigendian_2d', kind='witness', timeout=(60, 60), validate=D + 'replay_fdata_body'),
@@ -423,13 +425,13 @@ SPECS['C11'] = {'functions': DATA_FUNCS, 'stubs': NP_STUBS, 'cuts': CUTS, 'assum
 SPECS['C03'] = {'functions': DATA_FUNCS, 'stubs': NP_STUBS, 'cuts': CUTS, 'assumptions': CH_ASSUME,
                 'outside': NP_OUT + ['the claim is structural: one record per row, numbering, referenced frame, slot order, slot byte '
                                      'length and byte order under the stub contract; value bit patterns only in replays'],
-                'selftests': NP_SELF, 'obligations': _iteration + _tiling + _fdata + _window}
+                'selftests': NP_SELF, 'obligations': _iteration + _tiling + _fdata + _fdcast + _window}
 SPECS['C08'] = {'functions': DATA_FUNCS + ['ChannelItem.set_dimension_and_repr_code_from_data', 'ChannelItem._set_dimension_from_data',
                                            'ChannelItem._set_repr_code_from_data', 'ChannelItem._compare_element_limit_vs_dimension',
                                            'ChannelItem._run_checks_and_set_defaults', 'ChannelItem._set_cast_dtype', 'ReprCodeAttribute.set_from_dtype'],
                 'stubs': NP_STUBS + ['kint/kfloat'], 'cuts': CUTS, 'assumptions': CH_ASSUME + SMT_ASSUME,
                 'outside': NP_OUT + ['what numpy reports as shape/dtype for exotic arrays'],
-                'selftests': NP_SELF + ['venv:vf.stubs.selftest:selftest_format_table'], 'obligations': _descr + _fdata}
+                'selftests': NP_SELF + ['venv:vf.stubs.selftest:selftest_format_table'], 'obligations': _descr + _fdata + _fdcast}
 SPECS['C19'] = {'functions': DATA_FUNCS + ['LogicalFile._make_multi_frame_data'], 'stubs': NP_STUBS, 'cuts': CUTS, 'assumptions': CH_ASSUME,
                 'outside': NP_OUT + ['numpy / h5py internals and the file on disk: the claim is the Python-level data flow under '
                                      'numpy\'s documented view/copy contract (in-place operations the stub models: slice/field '
